@@ -101,7 +101,8 @@ def pick_others(rng, ok, cs):
     # table models: the neighbours of the case itself (same tables, data just off the table points, nothing moving),
     # so that the last table lookups before the repetitions end in the segments next to the points the case sits on
     nb = table_neighbours(cs)        # just below, then just above the table points
-    return (rng.sample(pool, 3) if len(pool) >= 3 else []) + same + nb
+    # models whose state layout depends on a parameter: the same parameters on a state vector of another legal layout
+    return (rng.sample(pool, 3) if len(pool) >= 3 else []) + same + nb + layout_neighbours(cs, rng)
 
 
 def table_neighbours(cs):
@@ -244,6 +245,7 @@ def main():
         c.cov['rule'] = 'the Go harness did not build against /repo'
         c.finish()
     g = Gen(rng, N, owrun)
+    g.signed = True
     per_model = 24 if quick else 200
     cases = []
     for m in ALL_MODELS:
